@@ -79,13 +79,13 @@ theorem listMin_isMin (d : List K) : IsMinOpt (listMin d) d := by
     exact foldl_min_spec xs x
 
 theorem ltMinDiff_iff (x : K) (m : Option K) : ltMinDiff x m = true ↔ ∀ y, m = some y → x < y := by
-  cases m <;> simp [ltMinDiff]
+  cases m <;> simp [ltMinDiff_def]
 
 theorem eqMinDiff_iff (x : K) (m : Option K) : eqMinDiff x m = true ↔ m = some x := by
   cases m with
-  | none => simp [eqMinDiff]
+  | none => simp [eqMinDiff_def]
   | some y =>
-    simp only [eqMinDiff, Option.some.injEq]
+    simp only [eqMinDiff_def, Option.some.injEq]
     unfold eqK Gen.DistogramExpr.eqK
     simp only [Bool.and_eq_true, decide_eq_true_eq]
     exact ⟨fun h => le_antisymm h.2 h.1, fun h => by rw [h]; exact ⟨le_refl _, le_refl _⟩⟩
@@ -142,10 +142,10 @@ theorem pointUpdate_track {P : Nat → Prop} {st st' : List K × Option K × Boo
       · rw [if_pos hl]; exact ⟨nd, rfl, le_refl _⟩
       · rw [if_neg hl]
         cases hmd : st.2.1 with
-        | none => rw [hmd] at hl; simp [ltMinDiff] at hl
+        | none => rw [hmd] at hl; simp [ltMinDiff_def] at hl
         | some m =>
           rw [hmd] at hl
-          simp only [ltMinDiff, decide_eq_true_eq] at hl
+          simp only [ltMinDiff_def, decide_eq_true_eq] at hl
           exact ⟨m, rfl, not_lt.mp hl⟩
     · rw [if_neg hjk] at hx
       have hPk : ¬ P k := fun hp => hk ⟨hp, fun e => hjk e.symm⟩
@@ -232,7 +232,7 @@ theorem block_spec {bins : List (K × K)} {st st' : List K × Option K × Bool} 
     Track (fun k => P k ∧ ¬ (c = true ∧ k = j)) st' ∧
     (∀ k, ¬ (P k ∧ ¬ (c = true ∧ k = j)) → st'.1[k]? = gapAt bins k) ∧
     st'.1.length = st.1.length := by
-  unfold diffBlock at hb
+  rw [diffBlock_def] at hb
   by_cases hc : c = true
   · rw [if_pos hc] at hb
     split at hb
@@ -262,7 +262,7 @@ theorem block_spec {bins : List (K × K)} {st st' : List K × Option K × Bool} 
     exact hk ⟨hp, fun ⟨c', _⟩ => hc c'⟩
 
 theorem updateDiffs_none {h : Hist K} {i : Nat} (hd : h.diffs = none) : updateDiffs h i = .ok h := by
-  unfold updateDiffs; rw [hd]
+  rw [updateDiffs_def, hd]
 
 theorem updateDiffs_coherent {h h' : Hist K} {i : Nat} (hok : updateDiffs h i = .ok h')
     (hne : h.bins ≠ [])
@@ -279,7 +279,7 @@ theorem updateDiffs_coherent {h h' : Hist K} {i : Nat} (hok : updateDiffs h i = 
     exact ⟨rfl, rfl, rfl, rfl, fun _ => hd, fun d hd' => by rw [hd] at hd'; cases hd'⟩
   | some d0 =>
     obtain ⟨hpt, htr⟩ := hpre d0 hd
-    unfold updateDiffs at hok
+    rw [updateDiffs_def] at hok
     rw [hd] at hok
     simp only at hok
     obtain ⟨s1, h1, hok⟩ := bind_eq_ok hok
